@@ -52,9 +52,52 @@ def expr_rows(ctx):
     return rows
 
 
+def wide_arith(ctx, events_in=None):
+    """IEEE-754 arithmetic and comparisons on doubles outside the exact window (bit patterns as tokens)."""
+    thorough = ctx.tier == "thorough"
+    tp = ctx.path("widearith.ndjson")
+    args = ["core", "widearith", "--out", tp]
+    args += ["--in", events_in] if events_in else ["--n", 60000 if thorough else 6000]
+    ctx.harness(args, timeout=900)
+    t = ctx.tlc("WideArithTrace", files=[("trace.ndjson", tp)], workers=1, timeout=900, label="WideArithTrace (doubles as bit patterns)")
+    res = t.printed("RESULT")
+    if not res:
+        raise vlib.MachineryError("WideArithTrace printed no RESULT:\n" + t.tail())
+    res = res[-1]
+    events = vlib.read_ndjson(tp)
+    if res["lines"] != len(events):
+        raise vlib.MachineryError("wide arithmetic trace not consumed completely: %d of %d" % (res["lines"], len(events)))
+    if any(b["what"] == "malformed-event" for b in res["bad"]):
+        raise vlib.MachineryError("the harness wrote a malformed wide-arithmetic event: %s" % res["bad"][0])
+    import struct
+
+    def show(tok):
+        if tok.startswith("f") and len(tok) == 17:
+            return repr(struct.unpack(">d", bytes.fromhex(tok[1:]))[0])
+        return tok
+    seen = {}
+    for b in res["bad"]:
+        e = events[b["line"] - 1]
+        sig = "expr:wide-%s-%s" % (e["op"], b["what"])
+        seen[sig] = seen.get(sig, 0) + 1
+        if seen[sig] > 2:
+            continue
+        ctx.violation({"kind": "widearith", "event": e},
+                      "%s with a = %s, b = %s (%s operands): IEEE-754 prescribes %s, the library stored %s"
+                      % (e["src"], show(e["a"]), show(e["b"]), "storer" if e["form"] == "var" else "literal", show(e["exp"]), show(e["got"])),
+                      signature=sig)
+    ctx.cover(wide_double_evaluations=len(events), wide_double_evaluations_with_literals=sum(1 for e in events if e["form"] == "lit"))
+    return len(events)
+
+
 def run(ctx):
     if ctx.replay:
         rp = json.load(open(ctx.replay))["payload"]
+        if rp.get("kind") == "widearith":
+            ctx.build()
+            vlib.write_ndjson(ctx.path("wide_in.ndjson"), [dict(rp["event"], got="", exp="")])
+            wide_arith(ctx, events_in=ctx.path("wide_in.ndjson"))
+            return
         if rp.get("kind") == "exprrow":
             ctx.build()
             p = ctx.path("exprrows.ndjson")
@@ -67,4 +110,5 @@ def run(ctx):
         return cc.run_core_check(ctx, SPEC)
     cc.run_core_check(ctx, SPEC)
     rows = expr_rows(ctx)
+    wide_arith(ctx)
     ctx.coverage["samples"] = (ctx.coverage.get("samples") or []) + [{"expression_row": rows[len(rows) // 2]}]
